@@ -10,7 +10,7 @@ Family
          included).  After each walk: callback spies (arguments, statuses seen)
          and the arrays mode with a random subset of return_statuses.
 """
-from eonsim import contagion, markov, walks
+from eonsim import contagion, lawtest, markov, walks
 from eonsim.explorer import Skip
 
 PROPERTY = "C15"
@@ -27,11 +27,114 @@ COMPONENTS = {"real": ["EoN.Gillespie_complex_contagion", "EoN._ListDict_", "EoN
               "stub": ["random source (SimRandom scripted)", "user callbacks rate_function/transition_choice/get_influence_set (harness models with recording spies)"]}
 
 
+LAW_N = {"quick": 10000, "thorough": 100000}
+LAW_CFGS = {"quick": 12, "thorough": 48}
+LAW_BATCHES = 4
+
+
 def plan(tier):
-    return [("walk", 3500 if tier == "quick" else 100000)]
+    return [("walk", 3500 if tier == "quick" else 100000), ("law", LAW_CFGS[tier] * LAW_BATCHES)]
+
+
+# implementation-agnostic back-up of the walks: seeded samples of the whole call
+# against expm(Q T) of the generator defined by the user's rate function.
+def law_cfgs(seed, tier):
+    import random
+    from eonsim import framework
+    out, k = [], 0
+    while len(out) < LAW_CFGS[tier] and k < 2000:
+        rng = random.Random(framework.derive_int(seed, PROPERTY, "lawcfg", k))
+        k += 1
+        case = contagion.gen_complex_case(rng)
+        if not (2 <= len(case["graph"]["nodes"]) <= 5) or not case["graph"]["edges"]:
+            continue
+        case["tmin"] = 0
+        case["tmax"] = 3.0
+        case["T"] = [0.5, 2.0]
+        ad = contagion.ComplexAdapter(dict(case, prefix=[]))
+        if sum(ad.ref.enabled(ad.init_state).values()) <= 0:
+            continue
+        out.append(case)
+    return out
+
+
+_CFG = {}
+
+
+def _cfgs(seed, tier):
+    if (seed, tier) not in _CFG:
+        _CFG[(seed, tier)] = law_cfgs(seed, tier)
+    return _CFG[(seed, tier)]
+
+
+def law_sample(case, n, seed):
+    import eonsim
+    EoN = eonsim.load_eon()
+    ad = contagion.ComplexAdapter(dict(case, prefix=[]))
+    IC = {lab: s for lab, s in zip(ad.labels, ad.init_state)}
+    ret = list(case["ret"])
+    labels = ad.labels
+
+    def call():
+        return EoN.Gillespie_complex_contagion(ad.G, ad.rate, ad.choose, ad.infl, IC, ret, tmin=0, tmax=case["tmax"],
+                                               parameters=ad.params, return_full_data=True)
+
+    def stat(inv):
+        out = []
+        for j, tt in enumerate(case["T"]):
+            d = inv.get_statuses(time=tt)
+            out.append((j, "".join(d[x] for x in labels)))
+        return out
+    return lawtest.sample_counts(call, n, seed, stat)
+
+
+def law_expected(case):
+    ad = contagion.ComplexAdapter(dict(case, prefix=[]))
+    return {j: {"".join(s): p for s, p in lawtest.generic_dist_at(ad.ref, ad.init_state, tt).items()}
+            for j, tt in enumerate(case["T"])}
+
+
+def finalize(parts, tier, seed):
+    cfgs = _cfgs(seed, tier)
+    by = {}
+    for (_f, _i), p in parts:
+        d = by.setdefault(p["cfg"], {"n": 0, "counts": {}})
+        d["n"] += p["n"]
+        for k, v in p["counts"].items():
+            d["counts"][k] = d["counts"].get(k, 0) + v
+    tests, keys = [], []
+    for j in sorted(by):
+        for statname, dist in law_expected(cfgs[j]).items():
+            counts = {eval(k)[1]: v for k, v in by[j]["counts"].items() if eval(k)[0] == statname}
+            cells = lawtest.test_cells(by[j]["n"], counts, dist)
+            tests.append(((j, statname), by[j]["n"], cells))
+            keys.extend("law|%d|%s|%s" % (j, statname, c[0]) for c in cells)
+    fails, ncells, worst = lawtest.decide(tests)
+    viol = []
+    for (label, k, o, n, p, pv) in fails[:3]:
+        viol.append({"cls": "law", "key": "Gillespie_complex_contagion/law",
+                     "msg": "config %d (model %s): T index %r, statuses %s observed %d of %d, master equation %.6g, p=%.3g"
+                            % (label[0], cfgs[label[0]]["model"], label[1], k, o, n, p, pv),
+                     "case": {"law_cfg": cfgs[label[0]], "n": n, "seed": seed, "cfg_index": label[0]}, "family": "law", "idx": label[0]})
+    stats = {"law_cells_tested": ncells, "law_configs": len(by)}
+    if worst:
+        stats["law_worst_z"] = round(worst[0], 3)
+    return {"viol": viol, "stats": stats, "keys": keys}
 
 
 def run_one(family, rng, idx, tier):
+    if family == "law":
+        import os
+        from eonsim import framework
+        seed = int(os.environ.get("VERIF_SEED", framework.DEFAULT_SEED))
+        cfgs = _cfgs(seed, tier)
+        j, b = divmod(idx, LAW_BATCHES)
+        if j >= len(cfgs):
+            return {"skipped": "no law configuration", "stats": {"evaluations": 0}}
+        n = LAW_N[tier]
+        counts = law_sample(cfgs[j], n, rng.getrandbits(48))
+        return {"partial": {"cfg": j, "n": n, "counts": {repr(k): v for k, v in counts.items()}},
+                "stats": {"evaluations": n, "law_runs": n}}
     case = contagion.gen_complex_case(rng)
     ad = contagion.ComplexAdapter(case)
     stats, keys = {}, set()
@@ -62,6 +165,15 @@ def run_one(family, rng, idx, tier):
 
 def replay(case):
     import random
+    if "law_cfg" in case:
+        cfg, n = case["law_cfg"], case["n"]
+        counts = law_sample(cfg, n, case["seed"] * 7919 + case["cfg_index"])
+        tests = []
+        for statname, dist in law_expected(cfg).items():
+            c = {k[1]: v for k, v in counts.items() if k[0] == statname}
+            tests.append(((0, statname), n, lawtest.test_cells(n, c, dist)))
+        fails, _, _ = lawtest.decide(tests)
+        return [{"cls": "law", "key": "Gillespie_complex_contagion/law", "msg": "replay %r" % (fails[0],), "case": case}] if fails else []
     ad = contagion.ComplexAdapter(case)
     prefix = markov.norm_prefix(case)
 
